@@ -126,7 +126,7 @@ let spec_case (line : string) : string =
         (if failcall = "0" then "allocation failure reported although none was injected" else "ok")
       else begin
         let descs = match rest with [] -> [] | m :: _ -> Stdlib.List.map parse_map (split_on ';' m) in
-        let descs = Stdlib.List.stable_sort (fun a b -> compare (int_of_n a.en) (int_of_n b.en)) descs in
+        let descs = Stdlib.List.stable_sort (fun a b -> compare (int_of_n a.en, int_of_n a.st) (int_of_n b.en, int_of_n b.st)) descs in
         let srcs = Stdlib.List.map (fun d -> { s_start = d.st; s_end = d.en; s_msb0 = d.msb; s_bitmap = d.bm }) descs in
         let (mapstr, ansstr) = split_bar (String.sub impl 2 (String.length impl - 2)) in
         let parse_regions s = if s = "-" || s = "" then [] else
@@ -146,6 +146,7 @@ let spec_case (line : string) : string =
         if Stdlib.List.length ops <> Stdlib.List.length answers then "wrong number of answers" else
         let judge (o, a) = match split_on ':' o with
           | ["r"; mi; p] ->
+              if int_of_string ("0x" ^ mi) >= Stdlib.List.length regs then None else
               let rs = Stdlib.List.nth regs (int_of_string ("0x" ^ mi)) and p = n_of_hex p in
               let rec first i = function
                 | [] -> -1
